@@ -6,7 +6,7 @@ import os
 import sys
 import traceback
 
-os.environ.setdefault("NUMBA_DISABLE_JIT", "1")
+os.environ.setdefault("NUMBA_DISABLE_JIT", "0")
 import warnings
 warnings.filterwarnings("ignore")
 HERE = os.path.dirname(os.path.abspath(__file__))
